@@ -806,10 +806,14 @@ spiftool_version_compare(spif_charptr_t v1, spif_charptr_t v2)
         }
     }
 
-    /* We've reached the end of one of the strings. */
+    /* We've reached the end of one of the strings.  The rest of the other
+       one is a pre-release suffix only if its first word IS one of the
+       pre-release words ("pre1", not "prep1" or "alphabet"), exactly as the
+       word-by-word comparison above sees it. */
+#define VERSION_TAIL_IS_WORD(v, w)  (!BEG_STRCASECMP((char *) (v), w) && !isalpha((unsigned char) (v)[sizeof(w) - 1]))
     if (*v1) {
-        if (!BEG_STRCASECMP((char *) v1, "snap") || !BEG_STRCASECMP((char *) v1, "pre")
-            || !BEG_STRCASECMP((char *) v1, "alpha") || !BEG_STRCASECMP((char *) v1, "beta")) {
+        if (VERSION_TAIL_IS_WORD(v1, "snap") || VERSION_TAIL_IS_WORD(v1, "pre")
+            || VERSION_TAIL_IS_WORD(v1, "alpha") || VERSION_TAIL_IS_WORD(v1, "beta")) {
             D_CONF(("     -> <\n"));
             return SPIF_CMP_LESS;
         } else {
@@ -817,8 +821,8 @@ spiftool_version_compare(spif_charptr_t v1, spif_charptr_t v2)
             return SPIF_CMP_GREATER;
         }
     } else if (*v2) {
-        if (!BEG_STRCASECMP((char *) v2, "snap") || !BEG_STRCASECMP((char *) v2, "pre")
-            || !BEG_STRCASECMP((char *) v2, "alpha") || !BEG_STRCASECMP((char *) v2, "beta")) {
+        if (VERSION_TAIL_IS_WORD(v2, "snap") || VERSION_TAIL_IS_WORD(v2, "pre")
+            || VERSION_TAIL_IS_WORD(v2, "alpha") || VERSION_TAIL_IS_WORD(v2, "beta")) {
             D_CONF(("     -> >\n"));
             return SPIF_CMP_GREATER;
         } else {
@@ -826,6 +830,7 @@ spiftool_version_compare(spif_charptr_t v1, spif_charptr_t v2)
             return SPIF_CMP_LESS;
         }
     }
+#undef VERSION_TAIL_IS_WORD
     D_CONF(("     -> ==\n"));
     return SPIF_CMP_EQUAL;
 }
